@@ -155,21 +155,28 @@ def run(model, col, tier):
     # ---------------- R09.5 guard inventory --------------------------------------------
     guards = {"vector comparison needs equal component counts": False, "DIV needs a scalar right operand": False, "MUL needs matching inner dimensions": False,
               "fallback needs equal kinds": False, "scalar op scalar is exempt from the shape rules": False}
+    from ..sem import local_env as _le95, rtext as _rt95
+
+    env95 = _le95(rb)
+    opn9, ln9, rn9 = (a.arg for a in rb.args.args[:3])
     for n in ast.walk(rb):
-        if isinstance(n, ast.Assert) and "left.GetComponentCount() == right.GetComponentCount()" in unparse(n.test):
+        if isinstance(n, ast.Assert) and _rt95(n.test, env95).replace(" ", "") in (f"{ln9}.GetComponentCount()=={rn9}.GetComponentCount()", f"{rn9}.GetComponentCount()=={ln9}.GetComponentCount()"):
             guards["vector comparison needs equal component counts"] = True
         if isinstance(n, ast.If):
-            t = unparse(n.test)
-            raises = any(isinstance(c, ast.Call) and last_attr(c) == "Raise" for s in n.body for c in ast.walk(s))
-            if raises and t == "not right.IsScalar()":
+            t = _rt95(n.test, env95)
+            tc = t.replace(" ", "")
+            # (canonical form: `if not C: raise .. else: ..` is presented as `if C: .. else: raise ..`; look at both arms)
+            raises_body = any(isinstance(c, ast.Call) and last_attr(c) == "Raise" for s in n.body for c in ast.walk(s))
+            raises_else = any(isinstance(c, ast.Call) and last_attr(c) == "Raise" for s in n.orelse for c in ast.walk(s))
+            if (raises_body and t == f"not {rn9}.IsScalar()") or (raises_else and t == f"{rn9}.IsScalar()"):
                 guards["DIV needs a scalar right operand"] = True
-            if raises and t.replace(" ", "") == "leftShape[1]!=rightShape[0]":
+            SHL9, SHR9 = f"_GetRowsColumns({ln9})", f"_GetRowsColumns({rn9})"
+            if (raises_body and tc in (f"{SHL9}[1]!={SHR9}[0]", f"{SHR9}[0]!={SHL9}[1]")) or (raises_else and tc in (f"{SHL9}[1]=={SHR9}[0]", f"{SHR9}[0]=={SHL9}[1]")):
                 guards["MUL needs matching inner dimensions"] = True
-            if raises and t == "left.GetKind() != right.GetKind()":
+            if (raises_body and tc in (f"{ln9}.GetKind()!={rn9}.GetKind()", f"{rn9}.GetKind()!={ln9}.GetKind()")) or (raises_else and tc in (f"{ln9}.GetKind()=={rn9}.GetKind()", f"{rn9}.GetKind()=={ln9}.GetKind()")):
                 guards["fallback needs equal kinds"] = True
-            if "not leftRightIsScalar" in t and "MUL" in t and "DIV" in t:
-                lrs = find_assign(rb, "leftRightIsScalar")
-                guards["scalar op scalar is exempt from the shape rules"] = bool(lrs) and unparse(lrs[0]) == "left.IsScalar() and right.IsScalar()"
+            if "MUL" in t and "DIV" in t and (f"not ({ln9}.IsScalar() and {rn9}.IsScalar())" in t or f"not ({rn9}.IsScalar() and {ln9}.IsScalar())" in t):
+                guards["scalar op scalar is exempt from the shape rules"] = True
     # placement: the DIV guard must be on the DIV path, the MUL guard after both scalar cases
     for g, present in guards.items():
         col.check(present, "R09.5", f"{TYPES}::ResolveBinaryExpressionType guard: {g}", "present as a rejecting path condition", f"the guard `{g}` is gone: combinations the language excludes are typed", TYPES, rb)
